@@ -1,7 +1,7 @@
 """C02 stand-in (bounded): two differently shaped expression trees over the same multiset
 of (atom, exponent) pairs must evaluate to the identical object; group laws; root∘power."""
 from fractions import Fraction
-from .common import namespace, pools, seed_rng
+from .common import namespace, pools, seed_rng, shape_zoo
 
 
 def build(rng, terms):
@@ -25,6 +25,15 @@ def build(rng, terms):
     return "(%s * %s)" % (build(rng, left), build(rng, right))
 
 
+def ns_bases_ok(ns, src, pf):
+    """a zoo shape may join a same-base tree only if its own prefix has that base (or none)"""
+    try:
+        p = eval(src, ns).prefix
+        return p.base in (0, ns[pf[0]].base) and p.exponent == int(p.exponent)
+    except Exception:
+        return False
+
+
 def run(tier, seed):
     ns = namespace()
     import measured
@@ -39,6 +48,7 @@ def run(tier, seed):
         else:
             ns["Fresh%d" % i] = measured.Unit._by_name[nm]
     units = units + ["Fresh0", "Fresh1", "Fresh2"]
+    zoo = shape_zoo(ns)
     si = [p for p in prefixes if ns[p].base == 10]
     iec = [p for p in prefixes if ns[p].base == 2]
     dimsyms = [d for d in dims if d != "Number"]
@@ -92,6 +102,10 @@ def run(tier, seed):
             for _ in range(rng.choice([1, 2, 3, 4])):
                 u = rng.choice(units)
                 atoms.append("(%s*%s)" % (rng.choice(pf), u) if rng.random() < 0.3 else u)
+            if rng.random() < 0.3:
+                zs = rng.choice(zoo)
+                if ns_bases_ok(ns, zs, pf):
+                    atoms.append("(%s)" % zs)
             if rng.random() < 0.2:
                 # a dimensionless unit that keeps a prefix: (p*u)**e * u**-e  (and nothing else, half of the time)
                 u, e = rng.choice(units), rng.choice([1, 2, 3])
